@@ -4,7 +4,7 @@ from typing import Optional
 from ..core import Report
 from ..fjfront import Stl
 from ..pyfacts import Repo
-from ..stlrules import rule_closure, rule_extent, rule_alias, rule_scratch, rule_const_fits, rule_jumpword_restore, rule_alias_safe, rule_snapshot_order
+from ..stlrules import rule_closure, rule_extent, rule_alias, rule_scratch, rule_const_fits, rule_carry_top, rule_jumpword_restore, rule_alias_safe, rule_snapshot_order
 
 FILES = ['flipjump/stl/bit/memory.fj', 'flipjump/stl/bit/logics.fj', 'flipjump/stl/bit/cond_jumps.fj', 'flipjump/stl/bit/shifts.fj',
          'flipjump/stl/bit/math.fj', 'flipjump/stl/bit/mul.fj', 'flipjump/stl/bit/div.fj']
@@ -19,6 +19,7 @@ def check(rep: Report, repo: Optional[Repo] = None) -> None:
     rule_scratch(rep, stl, 'C05', FILES, 60)
     rule_alias(rep, stl, 'C05', FILES, 15)
     rule_const_fits(rep, stl, 'C05', FILES, 2)
+    rule_carry_top(rep, stl, 'C05', FILES, 8)
     rule_snapshot_order(rep, stl, 'C05', FILES, 5)
     rule_jumpword_restore(rep, stl, 'C05', FILES, 2)
     rule_alias_safe(rep, stl, 'C05', FILES, 2)
@@ -27,7 +28,7 @@ def check(rep: Report, repo: Optional[Repo] = None) -> None:
 
 
 MANIFEST = dict(
-    technique='own .fj front end: link closure and doc-extent vs computed cell footprint; scratch / alias / jump-word typestate / constant-width / snapshot-order rules',
+    technique='own .fj front end: link closure and doc-extent vs computed cell footprint; scratch / alias / jump-word typestate / constant-width / snapshot-order rules; in-place arithmetic reaches the top of the assigned extent (CARRY-TOP)',
     level_text='Also: scratch initialisation, alias hazards, jump-word give-back (typestate), constant widths, and inputs are sampled before any input is modified in place. Static, PARTIAL: every macro call / global label reachable from the bit files resolves (name and arity), and each documented '
                'vector extent equals the computed cell footprint of that parameter for sizes 4/5/8. It does NOT decide the bit-serial '
                'arithmetic itself.',
